@@ -5,3 +5,5 @@ import WowVerif.Props.C08
 #print axioms Wv.C08.parallel_sorted
 #print axioms Wv.C08.patch_result_verified
 #print axioms Wv.C08.rle_length
+#print axioms Wv.C08.rle_output_bounded
+#print axioms Wv.C08.bsd0_output_bounded
